@@ -618,3 +618,70 @@ pub proof fn lemma_kv_ser_push(keys: Seq<tinystr::TinyAsciiStr<4>>, k: tinystr::
 {
     assert(keys.push(k).drop_last() =~= keys);
 }
+
+// ---------------------------------------------------------------------------------------
+// set_keyword / set_tfield: the value list an accepted call stores (C10: normalised exactly as the parser would)
+// ---------------------------------------------------------------------------------------
+pub open spec fn slice_bytes<S>(s: Seq<S>) -> Seq<Seq<u8>> { Seq::new(s.len(), |i: int| bytes_of(s[i])) }
+pub open spec fn all_utype(v: Seq<Seq<u8>>) -> bool { forall|i: int| 0 <= i < v.len() ==> is_utype(#[trigger] v[i]) }
+/// lower-cased values in the given order, `true` dropped
+pub open spec fn vals_norm(v: Seq<Seq<u8>>) -> Seq<Seq<u8>>
+    decreases v.len()
+{
+    if v.len() == 0 { Seq::empty() }
+    else if lower(v[0]) == true_word() { vals_norm(v.skip(1)) }
+    else { seq![lower(v[0])] + vals_norm(v.skip(1)) }
+}
+/// what the closure `|t| parse_type(t.as_ref()).transpose()` (and the tvalue twin) returns, as a function of the bytes
+pub open spec fn utype_opt(b: Seq<u8>) -> Option<Result<tinystr::TinyAsciiStr<8>, crate::parser::ParserError>> {
+    if !is_utype(b) { Some(Err(crate::parser::ParserError::InvalidSubtag)) }
+    else if lower(b) == true_word() { None }
+    else { Some(Ok(tiny::<8>(lower(b)))) }
+}
+pub open spec fn utype_opt_of<S>() -> spec_fn(S) -> Option<Result<tinystr::TinyAsciiStr<8>, crate::parser::ParserError>> {
+    |x: S| utype_opt(bytes_of(x))
+}
+/// ASSUMED (Kani: every leaf parser returns a TinyAsciiStr whose text is the lower-cased input, so such a value exists)
+pub proof fn axiom_tiny_exists(b: Seq<u8>)
+    requires is_utype(b),
+    ensures text(tiny::<8>(lower(b))) == lower(b),
+{ admit(); }
+pub proof fn lemma_fmc_utype<S>(s: Seq<S>)
+    ensures
+        match fmc_spec(s, utype_opt_of::<S>()) {
+            Ok(v) => all_utype(slice_bytes(s)) && texts::<8>(v) == vals_norm(slice_bytes(s)) && vals_wf(texts::<8>(v)),
+            Err(e) => !all_utype(slice_bytes(s)) && e == crate::parser::ParserError::InvalidSubtag,
+        },
+    decreases s.len(),
+{
+    let g = utype_opt_of::<S>();
+    let b = slice_bytes(s);
+    if s.len() == 0 {
+        assert(texts::<8>(Seq::<tinystr::TinyAsciiStr<8>>::empty()) =~= vals_norm(b));
+    } else {
+        lemma_fmc_utype::<S>(s.skip(1));
+        assert(slice_bytes(s.skip(1)) =~= b.skip(1));
+        assert(b[0] == bytes_of(s[0]));
+        assert(g(s[0]) == utype_opt(b[0]));
+        if !is_utype(b[0]) {
+        } else {
+            lemma_lower_props(b[0]);
+            match fmc_spec(s.skip(1), g) {
+                Ok(r) => {
+                    assert forall|i: int| 0 <= i < b.len() implies is_utype(#[trigger] b[i]) by {
+                        if i > 0 { assert(b.skip(1)[i - 1] == b[i]); }
+                    }
+                    if lower(b[0]) != true_word() {
+                        axiom_tiny_exists(b[0]);
+                        let v = seq![tiny::<8>(lower(b[0]))] + r;
+                        assert(texts::<8>(v) =~= seq![lower(b[0])] + texts::<8>(r));
+                    }
+                }
+                Err(e) => {
+                    let i = choose|i: int| 0 <= i < b.skip(1).len() && !is_utype(#[trigger] b.skip(1)[i]);
+                    assert(b[i + 1] == b.skip(1)[i]);
+                }
+            }
+        }
+    }
+}
